@@ -186,6 +186,7 @@ func (c16) Case(c *core.Ctx) {
 	failedCalls(c, 8)
 
 	var content map[string]interface{}
+	mixedRootList := false
 	isSeq := false
 	domain := ""
 	switch r.Intn(3) {
@@ -214,6 +215,14 @@ func (c16) Case(c *core.Ctx) {
 		if st.nullAttr {
 			return // a null attribute is an unspecified cell of the encoders (C03)
 		}
+		if r.Intn(10) == 0 {
+			// a single key holding a list with a member that is not a map: no variant may take the key for the root
+			l := []interface{}{map[string]interface{}{"a": "1"}, []interface{}{nil, "s", 2.5}[r.Intn(3)], map[string]interface{}{"b": c03strs[r.Intn(len(c03strs))]}}
+			r.Shuffle(len(l), func(i, j int) { l[i], l[j] = l[j], l[i] })
+			m = map[string]interface{}{"items": l}
+			mixedRootList = true
+			c.Count("content:single-key-list-with-non-map-member")
+		}
 		if r.Intn(4) == 0 {
 			// equal Maps "however they were built": one sub-map object stored in two places vs. the tree-shaped copies
 			c.Add("content:aliased-submaps", int64(jv.Alias(r, m, 1+r.Intn(2), func(k string) bool { return strings.HasPrefix(k, "-") || k == "#text" })))
@@ -232,7 +241,7 @@ func (c16) Case(c *core.Ctx) {
 	}
 	if len(content) == 1 {
 		for _, v := range content {
-			if _, isList := v.([]interface{}); isList {
+			if _, isList := v.([]interface{}); isList && !mixedRootList {
 				return // several roots: excluded from the C03 domain
 			}
 		}
